@@ -474,13 +474,36 @@ def leg_t_contexts(ck: Check, drv: Driver, workdir, full, escalated=False):
             exprs.append((decl, text))
             oracle.append(_ctx_oracle(spec, c, i1, l1))
             meta.append((spec, c, i1, l1))
+    # two-level contexts ((x op1 c1) op2 c2), (c1 op1 (x op2 c2)): a few constant pairs each, overflowing ones first
+    from harness.dalvik_interp import _bin
+    for spec in gt.context2_specs():
+        shape, o1, o2, ty = spec
+        base = gt.PAIR_I if ty == "I" else gt.PAIR_J
+        bits = 32 if ty == "I" else 64
+        pairs = [(base[0], base[0]), (base[1], base[1]), (base[2], base[2]), (base[8], base[8])]
+        pairs += [(rng.choice(base), rng.choice(base)) for _ in range(2 if not (full or escalated) else 8)]
+        for c1, c2 in pairs:
+            x = rng.choice((rng.choice(javagen.I_BOUND if ty == "I" else javagen.J_BOUND), rng.randrange(-2 ** (bits - 1), 2 ** (bits - 1))))
+            try:
+                text = gt.context2_text(ir, wr, spec, c1, c2)
+            except Exception as e:  # noqa
+                text = "other:" + type(e).__name__
+            if shape == "A":
+                val = _bin(_OPN[o2], _wrap(_bin(_OPN[o1], x, c1, bits), bits), c2, bits)
+            else:
+                val = _bin(_OPN[o1], c1, _wrap(_bin(_OPN[o2], x, c2, bits), bits), bits)
+            reqs.append("ctx2 %s %s %s %s %d %d %d %d" % (shape, o1, o2, ty, c1, c2, x if ty == "I" else 0, x if ty == "J" else 0))
+            real_text.append(text)
+            exprs.append(("%s v1 = %s;" % (javagen.JT[ty], javagen.java_literal(x, ty)), text))
+            oracle.append("%s%d" % (ty, _wrap(val, bits)))
+            meta.append((spec, (c1, c2), x, x))
     model = drv.ask(reqs)
     java = java_eval(workdir, "CX", exprs)
     real = ["text=%s | java=%s" % (real_text[i], java[i]) for i in range(len(reqs))]
     ck.compare("writer contexts text/java", reqs, real, model)
     for i, (spec, c, i1, l1) in enumerate(meta):
         if java[i] != oracle[i]:
-            ck.fail({"kind": "context", "family": spec[0], "op": spec[1], "aux": spec[2], "constant": c, "v1_int": i1, "v1_long": l1},
+            ck.fail({"kind": "context", "context": list(spec), "constant": c, "v1_int": i1, "v1_long": l1},
                     "a constant operand is printed so that the expression is rejected by javac or denotes another value",
                     None, expected=oracle[i], observed={"text": real_text[i], "java": java[i]})
     ck.cover(evaluations=len(reqs), distinct=((m[0], m[1]) for m in meta),
@@ -502,6 +525,47 @@ def ascii_sweep_methods():
                  ("add-int", 0, 3, 1), ("xor-int/2addr", 2, 0), ("return", 2)]
         ms.append({"name": "a%d" % k, "ret": "I", "params": ["I"], "registers": 4, "ins": 1, "items": items,
                    "features": ["ascii-sweep", "if", "int-to-char", "if-" + c], "level": 1})
+    return ms
+
+
+def chain_methods(rng, n):
+    """straight-line chains of 2-4 register-constant operations whose consecutive constants are same-sign boundary values
+    (so that their sums / products leave the range), int and long: what a constant-folding writer must not get wrong"""
+    PI = [0x7FFFFFFF, 1 << 30, 1500000000, 0x7FFFFFFE, 1000000000, 65536 * 16384]
+    PJ = [(1 << 63) - 1, 1 << 62, 6000000000000000000, (1 << 63) - 2, 5000000000000000000, 1 << 61]
+    ms = []
+    for k in range(n):
+        long = k % 2 == 1
+        sign = -1 if (k // 2) % 2 else 1
+        pool = PJ if long else PI
+        steps = 2 + k % 3
+        ops = [rng.choice(("add", "add", "sub", "mul")) for _ in range(steps)]
+        if k % 4 < 2:
+            ops[0] = ops[1] = "add" if k % 8 < 4 else "sub"          # the plain overflow pair
+        suffix = "long" if long else "int"
+        # registers: int: d=v0, c=v1, p=v2 ; long: d=v0/1, c=v2/3, p=v4/5
+        d, c, p = (0, 2, 4) if long else (0, 1, 2)
+        items = []
+        for j, op in enumerate(ops):
+            val = sign * rng.choice(pool)
+            if val == -(1 << 63) + 0:
+                val += 1
+            if long:
+                items.append(("const-wide", c, val))
+            elif val % 65536 == 0 and rng.random() < 0.5:
+                items.append(("const/high16", c, (val >> 16)))
+            else:
+                items.append(("const", c, val))
+            if j == 0:
+                items.append(("%s-%s" % (op, suffix), d, p, c))
+            elif rng.random() < 0.5:
+                items.append(("%s-%s/2addr" % (op, suffix), d, c))
+            else:
+                items.append(("%s-%s" % (op, suffix), d, d, c))
+        items.append(("return-wide" if long else "return", d))
+        ms.append({"name": "k%d" % k, "ret": "J" if long else "I", "params": ["J" if long else "I"], "registers": 6 if long else 3,
+                   "ins": 2 if long else 1, "items": items, "features": ["constant-chain"] + sorted({"%s-%s" % (o, suffix) for o in ops}),
+                   "level": 0})
     return ms
 
 
@@ -641,13 +705,17 @@ def leg_s(ck: Check, workdir):
                 report(ck, r, m, tup[m["name"]], "corpus/" + c["file"])
         ck.cover(evaluations=len(ms), dist={"corpus_methods": len(ms)})
     # 1b. every ASCII code once in a char-typed comparison, an int comparison and an addition
+    chains = chain_methods(rng, 48)
     ms = ascii_sweep_methods()
     tup = {m["name"]: [(k,) for k in sorted({int(m["name"][1:]), int(m["name"][1:]) + 1, int(m["name"][1:]) - 1, 0, 65, 92, 127, 65536 + int(m["name"][1:]), -1, 0x7FFFFFFF})] for m in ms}
+    for m in chains:
+        tup[m["name"]] = javagen.arg_tuples(rng, m["params"], 10, 4)
+    ms = ms + chains
     recs = c21diff.run_batch(ms, "Ascii", tup, workdir=os.path.join(workdir, "ascii"), java_timeout=30)
     for m, r in zip(ms, recs):
         if r["status"] != "agree":
-            report(ck, r, m, tup[m["name"]], "ascii sweep")
-    ck.cover(evaluations=len(ms), dist={"ascii_sweep_methods": len(ms), "ascii_sweep_agree": sum(1 for r in recs if r["status"] == "agree")})
+            report(ck, r, m, tup[m["name"]], "constant chain" if m["name"].startswith("k") else "ascii sweep")
+    ck.cover(evaluations=len(ms), dist={"constant_chain_methods": len(chains), "ascii_sweep_methods": len(ms) - len(chains), "ascii_sweep_agree": sum(1 for r in recs if r["status"] == "agree")})
     # 2. generated
     plan = [(0, 1500), (1, 1500), (2, 1500)] if not ck.quick else \
         ([(0, 150), (1, 200), (2, 100)] if getattr(ck, "escalated", False) else [(0, 100), (1, 100), (2, 60)])
@@ -683,6 +751,8 @@ def leg_s(ck: Check, workdir):
 
 def run(ck: Check):
     ck.pins_changed(PINS)
+    if os.environ.get("VERIF_NO_ESCALATE"):
+        ck.escalated = False      # (for testing that the plain quick sizes catch a change too)
     ck.run_gen("conds")
     ck.run_gen("translate")
     ck.prove(exes=["drv_C21"])
